@@ -43,7 +43,7 @@ def run(ctx):
     if not ctx.translate():
         return
     ok = ctx.prove(MODULES)
-    n = 200 if ctx.thorough() else 20          # thousands of inputs
+    n = 600 if ctx.thorough() else 20          # thousands of inputs
     res = fw.corr(ctx, "untrusted", n, timeout=1500)
     report(ctx, res)
     if res is not None:
